@@ -41,5 +41,18 @@ CHECKS.update({
            "Finite/symmetric/non-negative/zero-self on all ordered pairs and triangle on all ordered triples of the class grids for the rows of the fixed axiom table; exhaustive over the grids."),
 })
 
+CHECKS.update({
+ "C09": _e("exhaustive enumeration of all batches (<=3) and all two-call histories over a query pool for every fitted model of the bounded families; model-state hash closes the history space",
+           "For each of the four kinds and every lattice training sequence, every batch/history in the bounds is predicted by the real code and compared with the sample's stand-alone outcome; the prediction-relevant model state is hashed after each call (fixpoint at one state).", engine="explorer-B"),
+ "C12": _e("bounded-exhaustive exploration of fresh k-NN subgraphs plus explicit-state search over create/pdf/eliminate/destroy operation sequences (prefix replay, reference in lock-step)",
+           "Every graph/lattice sequence x k x k' x height on a fresh subgraph, every operation sequence to depth 4 (5) with state dedup, and the subgraph state left by both density fits, compared with a sorted-distance reference.", engine="explorer-B"),
+ "C13": _e("bounded-exhaustive exploration of both density fits over lattice/generic/graph families and all k ranges; forest invariants checked on the final state with adjacency snapshots taken through outside seams",
+           "All lattice sequences (heavy ties), generic arrangements and pre-computed graphs x all k ranges: every clause of the statement is evaluated on the real final state."),
+ "C14": _e("bounded-exhaustive exploration of (fitted model, query, batch position) against the exhaustive k-nearest max-min rule with every valid tie choice",
+           "Every model of the lattice families x every query (training copies, midpoints, far) x every batch position 0..n; membership in the set of outcomes allowed by the exhaustive rule."),
+ "C16": _e("stateless choice exploration: every criterion answer sequence scripted through the intercepted accuracy / cut routine; plus recorded natural criterion values",
+           "All 120 (KNN) / all (unsupervised) answer sequences over the criterion alphabet for every k range up to 4, and all lattice training/validation sets with the real criterion recorded; oracle = smallest best candidate and final model built with it.", engine="explorer-D"),
+})
+
 NOT_APPLICABLE = {p: "check not built yet (build in progress; see DESIGN.md section 7)" for p in
                   ["C%02d" % i for i in range(1, 21)]}
